@@ -343,6 +343,10 @@ def SingleKey : Cmd S → Bool
   | .fastSet _ _ => true
   | .batchGet [_] => true
   | .batchSet [_] => true
+  -- one ITEM of a generic fan-out (MGET / MSET / multi-key DEL, FLUSHALL seen from one key)
+  | .mget [_] => true
+  | .mset [_] => true
+  | .del [_] => true
   | _ => false
 
 def cmdKey : Cmd S → Key
@@ -351,6 +355,9 @@ def cmdKey : Cmd S → Key
   | .fastSet k _ => k
   | .batchGet [k] => k
   | .batchSet [kv] => kv.1
+  | .mget [k] => k
+  | .mset [kv] => kv.1
+  | .del [k] => k
   | _ => 0
 
 /-- the shard a command is sent to when it travels as ONE message: defined for every command kind
@@ -377,6 +384,10 @@ def OneMessage : Cmd S → Bool
   | .msetnx (_ :: _) => true
   | .del [_] => true
   | _ => false
+
+/-- a script WITHOUT `KEYS` (`EVAL … 0 …`) has no primary key: it runs on shard 0, whatever keys it
+    touches through `ARGV` (an undeclared key access) -/
+def execKeyless (st : Shards S.Val) (c : Cmd S) : Shards S.Val × Reply := onShard E st 0 c
 
 /-- the keyspace a client can observe: the union of the shards (first shard wins on a key that
     is stored twice — which `home_unique` excludes) -/
